@@ -25,7 +25,8 @@ func (c18) Rule() string {
 		"run 0's trace for every fault kind applicable to that operation (exhaustive per case; thorough adds drawn sequences of 2-3 faults). " +
 		"content: one schema file is torn at a drawn offset / emptied / byte-flipped / replaced by a directory / given a null subschema / a '$ref':'#'. " +
 		"defect: one ungeneratable element from the statement's catalogue (unknown type, $ref to missing definition or file, empty enum, non-primitive enum) " +
-		"is injected at a drawn property / array item / definition position (also inside allOf/anyOf branches, also as a $ref branch). " +
+		"is injected at a drawn property / array item / definition position (also inside allOf/anyOf branches, also as a $ref branch), a third of them next to an inert keyword (not, readOnly, $comment, default null ...) in the same schema object. " +
+		"odd: unusual but legal fragments (keywords with the wrong JSON type, tuple items, remote documents behind redirect chains and cycles ...), judged by T/S1/A only. " +
 		"flags: malformed mapping flag, unknown flag, missing package, no arguments, missing argument file. recursive: valid worlds with reference cycles through allOf/anyOf. " +
 		"Oracles: T never panics/dies/overruns the tick+memory budget; S0 exit 0 => outputs byte-identical to the fault-free run; S1 exit!=0 => stderr non-empty; " +
 		"A no write-side fault and exit!=0 => stdout empty and no file created/modified/removed; M catalogue defects, unparsable inputs, bad flags, unreadable required inputs => exit!=0. " +
